@@ -4,10 +4,12 @@ import (
 	"bytes"
 	"encoding/json"
 	"fmt"
+	"io"
 	"os"
 	"path/filepath"
 	"syscall"
 	"testing"
+	"time"
 
 	"github.com/tsenart/vegeta/v12/internal/zzverif/vgen"
 	"github.com/tsenart/vegeta/v12/internal/zzverif/vh"
@@ -24,6 +26,10 @@ type c08Chain struct {
 	Chain    []string // --to of each encode step
 	Existing []int    // size of a file that already exists at the output path of step i (0 = none): stale content must not survive
 	FIFO     bool     // the first input is a named pipe fed in odd-sized chunks (what `vegeta attack | ...` or process substitution gives)
+	// Extra > 0: that many more (small, synthetic) results follow the generated ones, and the last step writes into a
+	// named pipe whose reader starts SlowOutMS late (the decoding side of the command runs ahead of its output)
+	Extra     int `json:",omitempty"`
+	SlowOutMS int `json:",omitempty"`
 }
 
 func runC08Chain(c c08Chain) error {
@@ -32,6 +38,9 @@ func runC08Chain(c c08Chain) error {
 		return err
 	}
 	defer os.RemoveAll(dir)
+	for i := 0; i < c.Extra; i++ {
+		c.Results = append(c.Results, vegeta.Result{Attack: "extra", Seq: uint64(i), Code: uint16(200 + i%5), Timestamp: time.Unix(1600000000, int64(i)).UTC(), Latency: time.Duration(i), Method: "GET", URL: "http://x.test/", BytesIn: uint64(i)})
+	}
 	cur, err := writeResults(dir, "step0."+c.Start, c.Start, c.Results)
 	if err != nil {
 		return err
@@ -76,8 +85,34 @@ func runC08Chain(c c08Chain) error {
 			}
 		}
 		var eerr error
+		var piped chan []byte
+		if c.SlowOutMS > 0 && i == len(c.Chain)-1 {
+			next = filepath.Join(dir, "out.pipe")
+			if err := syscall.Mkfifo(next, 0o600); err != nil {
+				return fmt.Errorf("mkfifo: %v", err)
+			}
+			piped = make(chan []byte, 1)
+			go func(p string) {
+				r, err := os.OpenFile(p, os.O_RDONLY, 0)
+				if err != nil {
+					piped <- nil
+					return
+				}
+				defer r.Close()
+				time.Sleep(time.Duration(c.SlowOutMS) * time.Millisecond)
+				b, _ := io.ReadAll(r)
+				piped <- b
+			}(next)
+		}
 		if perr := vh.Try(func() { eerr = runEncode([]string{cur}, to, next) }); perr != nil {
 			return fmt.Errorf("encode step %d (%s -> %s) panics: %v", i+1, last, to, perr)
+		}
+		if piped != nil {
+			b := <-piped
+			next = filepath.Join(dir, "out.fromthepipe")
+			if err := os.WriteFile(next, b, 0o644); err != nil {
+				return err
+			}
 		}
 		if eerr != nil {
 			return fmt.Errorf("encode step %d (%s -> %s): %v", i+1, last, to, eerr)
@@ -102,7 +137,9 @@ func TestC08EncodeChain(t *testing.T) {
 		c.Results = vgen.Results(t, "rs", 1, 16, vgen.ResultOpts{AllowLargeBody: rapid.IntRange(0, 4).Draw(t, "big") == 0})
 		c.Chain = rapid.SliceOfN(rapid.SampledFrom(formats), 1, 4).Draw(t, "chain")
 		c.FIFO = rapid.IntRange(0, 4).Draw(t, "fifo") == 0
-		if rapid.IntRange(0, 2).Draw(t, "reuse") == 0 {
+		if rapid.IntRange(0, 5).Draw(t, "slowout") == 0 {
+			c.Extra, c.SlowOutMS = rapid.IntRange(1100, 5000).Draw(t, "extra"), rapid.SampledFrom([]int{50, 200}).Draw(t, "slowoutms")
+		} else if rapid.IntRange(0, 2).Draw(t, "reuse") == 0 {
 			c.Existing = rapid.SliceOfN(rapid.SampledFrom([]int{0, 1, 100000}), len(c.Chain), len(c.Chain)).Draw(t, "existing")
 		}
 		used := map[string]bool{c.Start: true}
